@@ -163,3 +163,44 @@ class Lexicon(object):
             if r.token == token and not r.ignored:
                 return r
         return None
+
+
+def derives(productions, start, tokens):
+    """Earley recogniser over the extracted productions: does `start` derive exactly this sequence of token names?"""
+    by_lhs = {}
+    for p in productions:
+        by_lhs.setdefault(p.lhs, []).append(tuple(p.rhs))
+    nts = set(by_lhs)
+    n = len(tokens)
+    chart = [set() for _ in range(n + 1)]
+    for rhs in by_lhs.get(start, []):
+        chart[0].add((start, rhs, 0, 0))
+    for i in range(n + 1):
+        work = list(chart[i])
+        while work:
+            lhs, rhs, dot, origin = work.pop()
+            if dot < len(rhs):
+                sym = rhs[dot]
+                if sym in nts:
+                    for r2 in by_lhs[sym]:
+                        item = (sym, r2, 0, i)
+                        if item not in chart[i]:
+                            chart[i].add(item)
+                            work.append(item)
+                    # nullable completion (no empty productions expected, handled for completeness)
+                    for (l3, r3, d3, o3) in list(chart[i]):
+                        if l3 == sym and d3 == len(r3) and o3 == i:
+                            item = (lhs, rhs, dot + 1, origin)
+                            if item not in chart[i]:
+                                chart[i].add(item)
+                                work.append(item)
+                elif i < n and tokens[i] == sym:
+                    chart[i + 1].add((lhs, rhs, dot + 1, origin))
+            else:
+                for (l2, r2, d2, o2) in list(chart[origin]):
+                    if d2 < len(r2) and r2[d2] == lhs:
+                        item = (l2, r2, d2 + 1, o2)
+                        if item not in chart[i]:
+                            chart[i].add(item)
+                            work.append(item)
+    return any(l == start and d == len(r) and o == 0 for (l, r, d, o) in chart[n])
